@@ -853,8 +853,33 @@ std::string summarize_document(Document& doc)
             os << "  var " << v.uid.get_name() << " dims=" << dims << " " << tagstr(t) << "\n";
         }
         for (auto& f : d.functions) {
-            if (!(f.uid == symbol_t{}))
-                os << "  fun " << f.uid.get_name() << "\n";
+            if (f.uid == symbol_t{})
+                continue;
+            // the tags found anywhere in the function: local initialisers and every statement of the body
+            Dumper fd{doc, DumpOpts{}};
+            for (auto& v : f.variables)
+                fd.expr(v.init, 0, false);
+            if (f.body) {
+                Dumper::StmtDump sd{fd};
+                sd.sub(f.body.get());
+            }
+            std::set<int> ft;
+            {
+                const std::string txt = fd.os.str();
+                for (size_t i = 0; i < txt.size();) {
+                    if (std::isdigit((unsigned char)txt[i]) && (i == 0 || txt[i - 1] == ' ' || txt[i - 1] == '(')) {
+                        size_t j = i;
+                        long long val = 0;
+                        while (j < txt.size() && std::isdigit((unsigned char)txt[j]) && j - i < 12)
+                            val = val * 10 + (txt[j++] - '0');
+                        if (val >= 100000 && val < 100000000 && (j == txt.size() || txt[j] == ')' || txt[j] == ' '))
+                            ft.insert((int)val);
+                        i = j;
+                    } else
+                        ++i;
+                }
+            }
+            os << "  fun " << f.uid.get_name() << " " << tagstr(ft) << "\n";
         }
         if (!(d.frame == frame_t{}))
             for (uint32_t i = 0; i < d.frame.get_size(); ++i) {
